@@ -20,6 +20,7 @@ func guardProbe(args []string) error {
 	fs.Parse(args)
 	var plan struct {
 		Cwd    string `json:"cwd"`
+		Pwd    string `json:"pwd"` // value of $PWD (a symlinked spelling of the working directory), or ""
 		Probes []struct {
 			Path string `json:"path"`
 			Mode string `json:"mode"`
@@ -30,6 +31,11 @@ func guardProbe(args []string) error {
 	}
 	if err := os.Chdir(plan.Cwd); err != nil {
 		return err
+	}
+	if plan.Pwd != "" {
+		os.Setenv("PWD", plan.Pwd) // os.Getwd trusts $PWD when it names the current directory
+	} else {
+		os.Unsetenv("PWD")
 	}
 	tw, err := newTraceWriter(*out)
 	if err != nil {
